@@ -128,41 +128,61 @@ Definition pp_payload_size (offending_len header_size : N) : N :=
   let included := N.min offending_len max_offending_len in
   ScmpParameterProblem_HEADER_SIZE_BYTES + included.
 
+(** a sequence of unchecked_bit_range_be_write calls on one buffer, in source order *)
+Fixpoint wr_all (v : bytes) (ws : list (rng * N)) : res bytes :=
+  match ws with
+  | [] => Ok v
+  | (r, x) :: t => v' <- wr v r x ;; wr_all v' t
+  end.
+
+(** CommonHeader::encode_unchecked(buf, header_len_units, path_type, dst_addr_type,
+    src_addr_type, payload_size) with traffic_class = 0, flow_id = 0, next_header = SCMP *)
+Definition common_header_writes (hl_units pt dst_nib src_nib payload_size : N) : list (rng * N) :=
+  [ (CommonHeader_VERSION_RNG, 0);
+    (CommonHeader_TRAFFIC_CLASS_RNG, 0);
+    (CommonHeader_FLOW_ID_RNG, 0);
+    (CommonHeader_NEXT_HEADER_RNG, PROTO_SCMP);
+    (CommonHeader_HEADER_LEN_RNG, hl_units);
+    (CommonHeader_PAYLOAD_LEN_RNG, payload_size);
+    (CommonHeader_PATH_TYPE_RNG, pt);
+    (CommonHeader_DST_ADDR_INFO_RNG, dst_nib);
+    (CommonHeader_SRC_ADDR_INFO_RNG, src_nib);
+    (CommonHeader_RSV_RNG, 0) ].
+
+(** AddressHeader::encode_unchecked on buf[12..]: ISD / AS numbers (ranges shifted by the
+    common header because the model writes into the whole header buffer) *)
+Definition address_ia_writes (dst_ia src_ia : N) : list (rng * N) :=
+  let sh r := rshift r CommonHeader_SIZE_BYTES in
+  [ (sh AddressHeader_DST_ISD_RNG, N.shiftr dst_ia 48);
+    (sh AddressHeader_DST_AS_RNG, N.land dst_ia (N.ones 48));
+    (sh AddressHeader_SRC_ISD_RNG, N.shiftr src_ia 48);
+    (sh AddressHeader_SRC_AS_RNG, N.land src_ia (N.ones 48)) ].
+
 (** ScionPacketHeader::encode_unchecked(header_buf, payload_size as u16): common header,
     address header; the empty path writes nothing *)
 Definition encode_reply_header (src dst : ipaddr) (payload_size : N) : res bytes :=
   let hs := reply_header_size src dst in
   let buf := zeros hs in
-  (* CommonHeader::encode_unchecked *)
-  b <- wr buf CommonHeader_VERSION_RNG 0 ;;
-  b <- wr b CommonHeader_TRAFFIC_CLASS_RNG 0 ;;
-  b <- wr b CommonHeader_FLOW_ID_RNG 0 ;;
-  b <- wr b CommonHeader_NEXT_HEADER_RNG PROTO_SCMP ;;
-  b <- wr b CommonHeader_HEADER_LEN_RNG (trunc 8 (hs / 4)) ;;
-  b <- wr b CommonHeader_PAYLOAD_LEN_RNG (trunc 16 payload_size) ;;
-  b <- wr b CommonHeader_PATH_TYPE_RNG PT_EMPTY ;;
-  b <- wr b CommonHeader_DST_ADDR_INFO_RNG (ip_nibble dst) ;;
-  b <- wr b CommonHeader_SRC_ADDR_INFO_RNG (ip_nibble src) ;;
-  b <- wr b CommonHeader_RSV_RNG 0 ;;
-  (* AddressHeader::encode_unchecked on buf[12..]: both ISD-AS are the wildcard *)
-  let sh r := rshift r CommonHeader_SIZE_BYTES in
-  b <- wr b (sh AddressHeader_DST_ISD_RNG) (N.shiftr IA_WILDCARD 48) ;;
-  b <- wr b (sh AddressHeader_DST_AS_RNG) (N.land IA_WILDCARD (N.ones 48)) ;;
-  b <- wr b (sh AddressHeader_SRC_ISD_RNG) (N.shiftr IA_WILDCARD 48) ;;
-  b <- wr b (sh AddressHeader_SRC_AS_RNG) (N.land IA_WILDCARD (N.ones 48)) ;;
+  b <- wr_all buf (common_header_writes (trunc 8 (hs / 4)) PT_EMPTY (ip_nibble dst) (ip_nibble src)
+                                        (trunc 16 payload_size)) ;;
+  b <- wr_all b (address_ia_writes IA_WILDCARD IA_WILDCARD) ;;
+  (* AddressHeaderLayout::new(src_len, dst_len): host address ranges *)
   b <- copy_into b (byte_lo (dst_host_rng (ip_size src) (ip_size dst))) (ip_octets dst) ;;
   copy_into b (byte_lo (src_host_rng (ip_size src) (ip_size dst))) (ip_octets src).
 
 (** ScmpParameterProblem::encode_unchecked(payload_buf, address_header, header_size) *)
+Definition param_problem_writes (code pointer : N) : list (rng * N) :=
+  [ (ScmpParameterProblem_TYPE_RNG, SCMP_T_ParameterProblem);
+    (ScmpParameterProblem_CODE_RNG, code);
+    (ScmpParameterProblem_CHECKSUM_RNG, 0);
+    (ScmpParameterProblem_RESERVED_RNG, 0);
+    (ScmpParameterProblem_POINTER_RNG, pointer) ].
+
 Definition encode_param_problem (src dst : ipaddr) (code pointer : N) (offending : bytes)
            (header_size : N) : res bytes :=
   let message_length := pp_payload_size (blen offending) header_size in
   let buf := zeros message_length in
-  b <- wr buf ScmpParameterProblem_TYPE_RNG SCMP_T_ParameterProblem ;;
-  b <- wr b ScmpParameterProblem_CODE_RNG code ;;
-  b <- wr b ScmpParameterProblem_CHECKSUM_RNG 0 ;;
-  b <- wr b ScmpParameterProblem_RESERVED_RNG 0 ;;
-  b <- wr b ScmpParameterProblem_POINTER_RNG pointer ;;
+  b <- wr_all buf (param_problem_writes code pointer) ;;
   let included := message_length - ScmpParameterProblem_HEADER_SIZE_BYTES in
   (* &self.offending_packet[..offending_packet_len] *)
   quote <- index_range offending 0 included ;;
@@ -209,18 +229,18 @@ Definition inbound_scmp_error (e : perr) : res (N * N * bytes) :=
     Ok (PP_CODE_INVALID_PATH_TYPE, trunc 16 (byte_lo CommonHeader_PATH_TYPE_RNG), view)
   end.
 
-(** what the gateway does with one inbound datagram *)
-Inductive action :=
-| Dispatch (view : bytes)      (* dispatcher.try_dispatch(view) *)
-| Reply (scmp : bytes)         (* handed to snaptun_srv.handle_outgoing_packet(target_buf, from) *)
-| Drop (e : encode_error).     (* "Failed to create SCMP error packet" logged *)
+(** the externally visible effects of handling one inbound datagram, in order *)
+Inductive effect :=
+| Dispatched (view : bytes)    (* self.dispatcher.try_dispatch(view) *)
+| Sent (scmp : bytes).         (* snaptun_srv.handle_outgoing_packet(target_buf, from): back into the tunnel *)
 
 (** the [HandleIncomingPacketResult::Forwarded] arm: [local] is the gateway socket's local IP,
-    [from] the tunnel peer's IP.  One datagram yields exactly one [action]. *)
-Definition gateway_inbound (local : ipaddr) (datagram : bytes) (from : ipaddr) : outcome action unit :=
+    [from] the tunnel peer's IP.  An encoding failure of the reply is logged and produces no
+    effect. *)
+Definition gateway_inbound (local : ipaddr) (datagram : bytes) (from : ipaddr) : outcome (list effect) unit :=
   match inbound_datagram_check datagram from with
   | Panic s => Panic s
-  | Ok view => Ok (Dispatch view)
+  | Ok view => Ok [Dispatched view]
   | Err e =>
     match inbound_scmp_error e with
     | Panic s => Panic s | Err _ => Panic P_VIEW_ERR
@@ -228,8 +248,8 @@ Definition gateway_inbound (local : ipaddr) (datagram : bytes) (from : ipaddr) :
       (* create_scmp_error(e, local_addr, ScionAddr::new(WILDCARD, from.ip().into()), buf) *)
       match encode_scmp_reply local from code pointer offending with
       | Panic s => Panic s
-      | Ok b => Ok (Reply b)
-      | Err ee => Ok (Drop ee)
+      | Ok b => Ok [Sent b]
+      | Err _ => Ok []
       end
     end
   end.
